@@ -11,6 +11,7 @@ Definition gen_parse_failure : string := "reply_bad_request_and_continue".
 Definition gen_after_parse : string := "match_follows_try".
 Definition gen_validation_shape : string := "isinstance_of_get_hashable_returns_reason_none_when_valid".
 Definition gen_validation_order : string := "member_validate_refuse_then_effects".
+Definition gen_time_dependence : string := "two_heartbeat_sleeps".
 Definition gen_conn_failure : string := "forward_quit".
 Definition gen_conn_cleanup : string := "decrement_pop_queue_close".
 Definition gen_admission : string := "reject_at_limit".
